@@ -25,8 +25,8 @@ def reframe(rows, part, meta_every=2):
     for i, ln in enumerate(part):
         fr = {"rows": rows[pos:pos + ln]}
         pos += ln
-        if i % meta_every == 1:
-            fr["meta"] = {"k": f"v{i}".encode(), "n": bytes([i % 256])}
+        if i % meta_every == 1 or (ln == 0 and i % 3 == 0):
+            fr["meta"] = {"k": f"v{i}".encode(), "n": bytes([i % 256]), "raw": b"\xff\xfe\x00" + bytes([i % 256])}
         frames.append(fr)
     assert pos == len(rows)
     return frames
@@ -198,7 +198,8 @@ def main(tier: str) -> int:
     rnd = random.Random(seed)
     lens = (5, 6, 7, 8) if tier == "quick" else (5, 6, 7, 8, 9, 10, 11)
     with ThreadPoolExecutor(6) as ex:
-        parts = dict(zip(lens, ex.map(lambda n: partitions(n, 1 if n > 6 or tier == "quick" else 2), lens)))
+        # up to three empty frames (also consecutive, also leading) for the short sequences
+        parts = dict(zip(lens, ex.map(lambda n: partitions(n, 3 if n <= 5 else 2 if n <= 6 else 1), lens)))
     states = sum(r.distinct for _, r in parts.values())
     trans = sum(r.generated for _, r in parts.values())
     # row sequences: reference encoder (generic and RDF 1.1 shapes) and the real serializer
